@@ -97,6 +97,7 @@ func c10(r *core.Report) {
 		"(*openapi3.PathItem).GetOperation": {
 			reason:  "its only caller on the traffic path is the gorilla/mux router's FindRoute, after mux matched the request against Methods(keys of PathItem.Operations()) — exactly the nine methods GetOperation handles (that table agreement is C09.methods); the legacy router must not call it",
 			callers: []string{"(*routers/gorillamux.Router).FindRoute"},
+			verify:  func() string { return verifyMuxMethods(p) },
 		},
 	})
 	crashAssert(r, cs, nil)
@@ -1886,4 +1887,57 @@ func crashIfaceNil(r *core.Report, cs *crashScope, floor int) {
 			}
 		}
 	})
+}
+
+// verifyMuxMethods: every mux route registered by gorillamux.NewRouter carries a Methods(...)
+// matcher built from the keys of the path item's Operations(), unconditionally (gorilla/mux treats
+// an empty Methods() list as "matches nothing", but a route without the matcher matches every
+// method -- and FindRoute then asks GetOperation for a method it panics on).
+func verifyMuxMethods(p *core.Prog) string {
+	fd := p.DeclOf("routers/gorillamux", "NewRouter")
+	info := p.Pkg("routers/gorillamux").TypesInfo
+	paths, withMethods := 0, 0
+	why := ""
+	ast.Inspect(fd.Body, func(nd ast.Node) bool {
+		c, ok := nd.(*ast.CallExpr)
+		if !ok {
+			return true
+		}
+		f := core.CalleeOf(info, c)
+		if f == nil || f.Pkg() == nil || !strings.HasSuffix(f.Pkg().Path(), "gorilla/mux") {
+			return true
+		}
+		switch f.Name() {
+		case "Path":
+			paths++
+		case "Methods":
+			withMethods++
+			// in the same expression as the Path call (a chain), or unconditional
+			chained := false
+			ast.Inspect(c.Fun, func(m ast.Node) bool {
+				if c2, ok := m.(*ast.CallExpr); ok {
+					if f2 := core.CalleeOf(info, c2); f2 != nil && f2.Name() == "Path" {
+						chained = true
+					}
+				}
+				return true
+			})
+			if !chained {
+				for _, a := range core.Atoms(core.GuardsAt(info, fd.Body, c)) {
+					s := core.ExprStr(a.Expr)
+					if strings.Contains(s, "len(") {
+						why = "the Methods matcher is added only when `" + s + "`: a path item without operations is registered for every method"
+					}
+				}
+			}
+		}
+		return true
+	})
+	if why != "" {
+		return why
+	}
+	if paths == 0 || withMethods < paths {
+		return fmt.Sprintf("%d mux routes are registered with Path(...) but only %d get a Methods(...) matcher", paths, withMethods)
+	}
+	return ""
 }
